@@ -36,8 +36,11 @@ def _solve_one(args):
     oid, smt2, timeout_ms, want_vacuity = args
     t0 = time.time()
     try:
+        # stage 1: z3 5.x with a short budget (almost every VC is discharged in milliseconds); stage 2: cvc5 and z3 4.8 on
+        # the same SMT-LIB text (they decide some non-linear integer VCs z3 5.x does not); stage 3: z3 5.x with the full budget
+        first = min(timeout_ms, 6000)
         s = z3.Solver()
-        s.set("timeout", timeout_ms)
+        s.set("timeout", first)
         s.from_string(smt2)
         r = s.check()
         res = {"id": oid, "backend": "z3-" + z3.get_version_string(), "seconds": time.time() - t0}
@@ -49,6 +52,26 @@ def _solve_one(args):
         else:
             res["verdict"] = "undecided"
             res["reason"] = s.reason_unknown()
+            for tool, cmd in (("cvc5", ["/usr/bin/cvc5", "--lang=smt2", f"--tlimit={timeout_ms}", "--produce-models"]),
+                              ("z3-4.8", ["/usr/bin/z3", "-smt2", f"-T:{max(1, timeout_ms // 1000)}"])):
+                v, out = _external(cmd, smt2, timeout_ms)
+                if v in ("proved", "refuted"):
+                    res["verdict"], res["backend"] = v, tool
+                    if v == "refuted":
+                        res["model"] = {"raw": out[:2000]}
+                    break
+            if res["verdict"] == "undecided" and timeout_ms > first:
+                s = z3.Solver()
+                s.set("timeout", timeout_ms)
+                s.from_string(smt2)
+                r = s.check()
+                if r == z3.unsat:
+                    res["verdict"] = "proved"
+                elif r == z3.sat:
+                    res["verdict"], res["model"] = "refuted", _model_dict(s.model())
+            res["seconds"] = time.time() - t0
+            if res["verdict"] != "undecided":
+                return res
             # E-matching only (no model-based quantifier instantiation): z3 stops quickly with `unknown` and a CANDIDATE model
             # that satisfies the ground part and every axiom instance it generated - good real-valued candidates for the
             # replay when the hypotheses are quantified axioms (exp/ln, reflect, NS additivity)
@@ -75,14 +98,6 @@ def _solve_one(args):
                 m = _small_model(smt2, bound, min(timeout_ms, 10000), drop_quantified=True)
                 if m is not None:
                     res["verdict"], res["model"], res["backend"] = "candidate", m, res["backend"] + f"+qfbox{bound}"
-                    break
-            for tool, cmd in (("cvc5", ["/usr/bin/cvc5", "--lang=smt2", f"--tlimit={timeout_ms}", "--produce-models"]),
-                              ("z3-4.8", ["/usr/bin/z3", "-smt2", f"-T:{max(1, timeout_ms // 1000)}"])):
-                v, out = _external(cmd, smt2, timeout_ms)
-                if v in ("proved", "refuted"):
-                    res["verdict"], res["backend"] = v, tool
-                    if v == "refuted":
-                        res["model"] = {"raw": out[:2000]}
                     break
             res["seconds"] = time.time() - t0
         return res
